@@ -2,7 +2,7 @@
    ExtrOcamlBasic only: bool, option, unit, list, prod, sumbool, sumor are
    mapped to OCaml's; N, Z, positive, nat, byte stay Coq inductives. *)
 From Coq Require Import extraction.ExtrOcamlBasic.
-Require Import Wire.Bytes Wire.Params Spec.ParamsSpec Spec.OracleC20.
+Require Import Wire.Bytes Wire.Params Spec.ParamsSpec Spec.OracleC20 Spec.ErrorFields Spec.OracleC17.
 Require Import Spec.BackendSpec Wire.Errors Spec.ErrorSpec Wire.Framing Wire.Session Wire.Codec Wire.Case Spec.Projection.
 
 Definition all_bytes : list byte := map byte_of_N (map N.of_nat (seq 0 256)).
@@ -12,4 +12,5 @@ Extraction "model.ml"
   parse_parameters_len oracle_C20
   parse_bmsg parse_stream enc_bmsg enc_stream wf_msg
   err_text get_code get_severity default_severity err_fields any_text flatten
+  e_unimplemented oracle_C17 model_errorcode spec_fields
   frames serve encode_value run_case log_digest log_match strip_consume consume_offsets.
